@@ -58,6 +58,8 @@ Definition tok_code (a : token) : N * N :=
   | TExists => (12, 0) | TTrue => (13, 0) | TFalse => (14, 0) | TPlus => (15, 0) | TMinus => (16, 0)
   | TTimes => (17, 0) | TDiv => (18, 0) | TLe => (19, 0) | TLt => (20, 0) | TGe => (21, 0) | TGt => (22, 0)
   | TEq => (23, 0) | TNeq => (24, 0) | TNum x => (25, x) | TName x => (26, x)
+  | TStart => (27, 0) | TEnd => (28, 0) | TLsq => (29, 0) | TRsq => (30, 0) | TAssign => (31, 0)
+  | TIncrease => (32, 0) | TDecrease => (33, 0) | TWhen => (34, 0)
   end%N.
 Definition token_eqb (a b : token) : bool :=
   (fst (tok_code a) =? fst (tok_code b))%N && (snd (tok_code a) =? snd (tok_code b))%N.
